@@ -632,21 +632,20 @@ def pop_helper(chk, helpers):
                 g = True
             cur = getattr(cur, "_parent", None)
         guarded = guarded and g
-    chk.ob("C09.pop-helper", "helpers.pop", ok and in_loop and guarded,
-           "helpers.pop no longer removes exactly `count` entries (one "
-           ".pop() per iteration of range(count); re-appends only under "
-           "ctx.retain_popped)", helpers.rel, fn.lineno,
-           sample={"pops": len(pops), "in range(count) loop": in_loop,
-                   "appends guarded": guarded})
+    # (statement pattern kept as a note only: a slice fast path guarded by
+    # 0 < count <= len(stack) is correct and was reported by it; the
+    # interpreted transition systems of pop_transitions decide)
+    chk.info("C09.pop-transition", "helpers.pop",
+             f"shape: one .pop() in a range(count) loop={ok and in_loop}, "
+             f"re-appends guarded by retain_popped={guarded}")
     wf = helpers.function("wrapify")
     calls = [n for n in ast.walk(wf) if isinstance(n, ast.Call)
              and dotted(n.func) == "pop"]
     ok = len(calls) == 1 and len(calls[0].args) >= 2 and isinstance(
         calls[0].args[1], ast.Name) and calls[0].args[1].id == \
         wf.args.args[1].arg
-    chk.ob("C09.pop-helper", "helpers.wrapify", ok,
-           "wrapify(item, count) no longer pops exactly `count` entries via "
-           "pop()", helpers.rel, wf.lineno, sample="pop(item, count, ctx)")
+    chk.info("C09.pop-transition", "helpers.wrapify",
+             f"shape: a single pop(item, count, ctx) call={ok}")
 
 
 def pop_transitions(chk, repo, tier):
